@@ -10,7 +10,7 @@ package statsdrv
 //
 // Case: {"ev":"Hist","P":{"V","C","E","R"},"init":{"tau","piV":[[b,t,p,d,g,a]..],"piL":[..]},
 //        "blocks":[{"slot","author","nt","adv","pre":[[service,len]..],
-//                   "gs":[{"slot","core","sigs":[idx..],"len","nexp","res":[{"s","i","x","z","e","u":[8 LE]}..]}..],
+//                   "gs":[{"slot","core","sigs":[idx..],"len","nexp","res":[{"s","i","x","z","e","u":[8 LE],"r":result kind}..]}..],
 //                   "as":[{"v","bits":[0|1 per core]}..],"avail":[{"core","len","nexp"}..],
 //                   "acc":[{"s","n","u":[8 LE]}..],"kappa":[key..],"lambda":[key..]}..]}
 // Keys are small integers standing for Ed25519 keys.  adv = 1: the posterior becomes the next
@@ -110,7 +110,11 @@ func report(core, length, nexp int, res any, tag byte) types.WorkReport {
 		d := dx.(map[string]any)
 		var w types.WorkResult
 		w.ServiceID = types.ServiceID(vfd.I(d["s"]))
-		w.Result = types.GetWorkExecResult(types.WorkExecResultOk, []byte{1})
+		kind := types.WorkExecResultType(vfd.S(d["r"]))
+		if kind == "" {
+			kind = types.WorkExecResultOk
+		}
+		w.Result = types.GetWorkExecResult(kind, []byte{1}) // ok or one of the six error kinds, as generated
 		w.RefineLoad = types.RefineLoad{GasUsed: types.Gas(vfd.FromU64LE(d["u"])), Imports: types.U16(vfd.I(d["i"])),
 			ExtrinsicCount: types.U16(vfd.I(d["x"])), ExtrinsicSize: types.U32(vfd.I(d["z"])), Exports: types.U16(vfd.I(d["e"]))}
 		r.Results = append(r.Results, w)
